@@ -5,7 +5,7 @@
 //! upgrades and optimizations.
 
 use crate::{
-    Archive, ArchiveBuilder, Error, FormatVersion, ListfileOption, Result,
+    Archive, ArchiveBuilder, Error, FileEntry, FormatVersion, ListfileOption, Result,
     compression::flags as compression_flags,
 };
 use std::path::Path;
@@ -88,6 +88,9 @@ struct FileMetadata {
     #[allow(dead_code)] // Kept for future validation features
     flags: u32,
 }
+
+/// Name of the archive's own file list
+const LISTFILE_NAME: &str = "(listfile)";
 
 /// Progress callback for rebuild operations
 pub type ProgressCallback = Box<dyn Fn(usize, usize, &str) + Send + Sync>;
@@ -219,12 +222,12 @@ fn extract_files_with_metadata(
     // Get file list. Prefer the (listfile)-based listing: entries need real names to be
     // readable, and table enumeration of HET/BET archives only yields placeholder names.
     let files = if metadata.has_het_bet {
-        match archive.list() {
+        match list_with_listfile(archive) {
             Ok(files) => files,
             Err(_) => archive.list_all_with_hashes()?,
         }
     } else {
-        match archive.list() {
+        match list_with_listfile(archive) {
             Ok(files) => files,
             Err(_) => archive.list_all()?,
         }
@@ -301,7 +304,7 @@ fn rebuild_with_files(
     }
 
     // Determine listfile strategy
-    let has_listfile = files.iter().any(|(_, meta)| meta.name == "(listfile)");
+    let has_listfile = files.iter().any(|(_, meta)| is_listfile(&meta.name));
     builder = builder.listfile_option(if has_listfile {
         ListfileOption::None // We'll add it manually to preserve content
     } else {
@@ -370,6 +373,39 @@ fn is_signature_file(filename: &str) -> bool {
     matches!(filename, "(signature)" | "(strong signature)")
 }
 
+/// Check if a file is the archive's own file list
+fn is_listfile(filename: &str) -> bool {
+    filename.eq_ignore_ascii_case(LISTFILE_NAME)
+}
+
+/// List the named files of an archive, its `(listfile)` included
+///
+/// `Archive::list()` reports the names the `(listfile)` contains. The `(listfile)` is a
+/// file of the archive whether or not it names itself (Blizzard's do not), so it is
+/// added when the listing lacks it. Extraction and verification both list through
+/// here, so they count it the same way for the source and for the target.
+fn list_with_listfile(archive: &mut Archive) -> Result<Vec<FileEntry>> {
+    let mut files = archive.list()?;
+
+    // An unreadable (listfile) makes `list()` enumerate the tables anonymously, and
+    // that enumeration already covers it.
+    if !files.iter().any(|file| is_listfile(&file.name))
+        && let Some(info) = archive.find_file(LISTFILE_NAME)?
+        && archive.read_file(LISTFILE_NAME).is_ok()
+    {
+        files.push(FileEntry {
+            name: LISTFILE_NAME.to_string(),
+            size: info.file_size,
+            compressed_size: info.compressed_size,
+            flags: info.flags,
+            hashes: None,
+            table_indices: Some((info.hash_index, Some(info.block_index))),
+        });
+    }
+
+    Ok(files)
+}
+
 /// Verify that the rebuilt archive matches the original
 fn verify_rebuild(source_path: &Path, target_path: &Path, options: &RebuildOptions) -> Result<()> {
     let mut source_archive = Archive::open(source_path)?;
@@ -377,11 +413,11 @@ fn verify_rebuild(source_path: &Path, target_path: &Path, options: &RebuildOptio
 
     // A listing error must fail verification: an empty fallback list on both
     // sides would compare equal and report a successful verification
-    let source_files = match source_archive.list() {
+    let source_files = match list_with_listfile(&mut source_archive) {
         Ok(files) => files,
         Err(_) => source_archive.list_all()?,
     };
-    let target_files = match target_archive.list() {
+    let target_files = match list_with_listfile(&mut target_archive) {
         Ok(files) => files,
         Err(_) => target_archive.list_all()?,
     };
